@@ -172,7 +172,7 @@ def run(ctx):
                 "ones too - declares targets); when mirror model and implementation disagree, a search around the disagreeing cases "
                 "(single statements, respellings, leave-one-out, random statements over the same schema) against the specification; distinct = distinct (schema, element kind, "
                 "statements); non-trivial = at least one statement")
-    cases = generate(ctx, ctx.budget(550, 12000), ctx.budget(8, 1))
+    cases = generate(ctx, ctx.budget(520, 12000), ctx.budget(8, 1))
     outs = ctx.impl("options", [c["input"] for _, c in cases])
     terms, meta = [], []
     unmodelled = {}
